@@ -51,21 +51,6 @@ Lemma concat_empty_tail_refuted :
   /\ spec_concat two_parts [] [full; ASlice (Some 1) (Some 0) None] <> Err.
 Proof. split; [vm_compute; reflexivity|vm_compute; discriminate]. Qed.
 
-Definition parts_3_1 : list craw :=
-  [mk_craw [3; 1] [] (arange [3; 1] 0) 0; mk_craw [3; 1] [ASlice (Some (-1)) None (Some 2)] (arange [3; 1] 1) 0].
-
-(* F32: c[-9:1:-1] is empty in numpy but answered with a row of the last part *)
-Lemma concat_negative_step_refuted :
-  exists out, run_concat parts_3_1 [ASlice (Some (-9)) (Some 1) (Some (-1))] = Ok out
-  /\ spec_concat parts_3_1 [] [ASlice (Some (-9)) (Some 1) (Some (-1))] <> Ok out
-  /\ spec_concat parts_3_1 [] [ASlice (Some (-9)) (Some 1) (Some (-1))] <> Err.
-Proof. eexists. split; [vm_compute; reflexivity|]. split; vm_compute; discriminate. Qed.
-
-(* F33: an out-of-range tail scalar is not rejected when the head list is empty *)
-Lemma concat_unchecked_tail_scalar_refuted :
-  exists out, run_concat two_parts [AList []; AInt 5] = Ok out /\ spec_concat two_parts [] [AList []; AInt 5] = Err.
-Proof. eexists. split; vm_compute; reflexivity. Qed.
-
 (* supported cases on the same parts agree (the hypotheses of the statements above are not vacuous) *)
 Lemma concat_example_supported :
   run_concat two_parts [ASlice (Some 1) None (Some 3)] = spec_concat two_parts [] [ASlice (Some 1) None (Some 3)]
